@@ -66,6 +66,10 @@ const COMMENTS: &[&str] = &[
     "@* { } @ ( *@",
     "@*** x ***@",
     "@* \"q\" *@",
+    // a comment opener inside a comment is text: the first `*@` closes
+    "@* was: @* old *@",
+    "@*@*x*@",
+    "@* @* *@",
 ];
 
 impl Layout<'_> {
@@ -490,6 +494,8 @@ pub fn text_after_expr(r: &mut Rng) -> Vec<u8> {
         " ", "<", "\n", ",", ")", ". ", ".)", ";", "! ", "'", "\"", "-", "&", "é", "/", ": ", "?",
         // white space ends the fragment even when something that could continue a chain follows it
         " .len()", " .item ", "\n  .pow(2)", "\t.x", " ::x", " (x)", " [0]", " !(x)", "\r\n.next", " .5em",
+        // two dots are no member access
+        "..last", "..=9", "..(more)", "...b",
     ];
     let mut t = r.pick(starts).as_bytes().to_vec();
     t.extend(rand_text(r));
@@ -535,7 +541,7 @@ pub fn rand_text(r: &mut Rng) -> Vec<u8> {
 fn rand_comment(r: &mut Rng) -> Vec<u8> {
     let opts: &[&str] = &[
         " c ", "", " a * b ", "* doc *", " @ { } ( ", "\n line \n", " \"q\" ", "** x **", " é ", " * ", "*", " if x { ",
-        " @if a {",
+        " @if a {", " was: @* old ", "@*x", " @* ", "@",
     ];
     r.pick(opts).as_bytes().to_vec()
 }
